@@ -2,6 +2,7 @@ import RpmVerif.Driver.C13
 import RpmVerif.Driver.C01
 import RpmVerif.Driver.C16
 import RpmVerif.Driver.C20
+import RpmVerif.Driver.C18
 /-! Driver: one request per line in (`<op> <args…> => <impl observation>`), one answer per line
 out (`<model observation> | <spec verdict> | <branch label>`).
 Each property contributes `Driver/Cxx.lean` with `ops : List String` and
@@ -12,7 +13,8 @@ def handlers : List (List String × (String → List String → String → Strin
   (C13.ops, C13.handle),
   (C01.ops, C01.handle),
   (C16.ops, C16.handle),
-  (C20.ops, C20.handle)
+  (C20.ops, C20.handle),
+  (C18.ops, C18.handle)
 ]
 
 def dispatch (line : String) : String :=
